@@ -8,6 +8,11 @@ VERIF = os.path.dirname(os.path.dirname(os.path.abspath(__file__)))
 
 def main():
     reg = json.load(open(os.path.join(VERIF, 'checks.json')))
+    rdir = os.path.join(VERIF, 'registry')
+    if os.path.isdir(rdir):
+        for f in sorted(os.listdir(rdir)):
+            if f.endswith('.json'):
+                reg['checks'][f[:-5]] = json.load(open(os.path.join(rdir, f)))
     props = [json.loads(l) for l in open(os.path.join(VERIF, 'properties.jsonl'))]
     ids = [p['id'] for p in props]
     checks = []
